@@ -716,6 +716,12 @@ func kGenOp(r *Rng, w *kWorld, s *kSnap, trip *kTrip) kOp {
 		} else {
 			ay = capTo(kAmount(r, s.bal[op.Who][y], p.rb), s.bal[op.Who][y])
 		}
+		if exists && p.s.Cmp(p.ra) < 0 && p.s.Cmp(p.rb) < 0 && r.Chance(1, 3) {
+			// a pool whose reserves outgrew its shares (fees): the smallest deposit that still takes
+			// one unit of B mints zero shares
+			ax = add(ceilDiv(p.ra, p.rb), bi(int64(r.Intn(2))))
+			ay = add(new(big.Int).Quo(mul(ax, p.rb), p.ra), bi(int64(r.Intn(2))))
+		}
 		if ax.Sign() <= 0 {
 			ax = bi(1)
 		}
@@ -934,6 +940,17 @@ func kSplits(w *kWorld, op kOp, cls Class, err error, before, after *kSnap, cnt 
 		if k == "slippage" || k == "insufficient-liquidity" || k == "insufficient-funds" {
 			mark(op.Kind + ":refused:" + k)
 		}
+		if op.Kind == "deposit" && k == "insufficient-liquidity" && p.s.Sign() > 0 {
+			ax, ay := bigS(op.A1), bigS(op.A2)
+			if op.D1 != x {
+				ax, ay = ay, ax
+			}
+			if ax.Sign() > 0 && ay.Sign() > 0 {
+				if outs := kPredict(p, "add", ax, ay); outs != nil && outs[0].Sign() > 0 && outs[1].Sign() > 0 && outs[2].Sign() == 0 {
+					mark("deposit:refused:zero-shares")
+				}
+			}
+		}
 		return nil // refusals are counted but do not make a history non-trivial
 	}
 	switch op.Kind {
@@ -997,7 +1014,7 @@ var kAllSplits = []string{
 	"withdraw:pool-deleted", "withdraw:depositor-exits", "withdraw:partial",
 	"swapin:A-for-B", "swapin:B-for-A", "swapout:A-for-exact-B", "swapout:B-for-exact-A",
 	"two-pools-live", "panic",
-	"deposit:refused:slippage", "deposit:refused:insufficient-liquidity", "deposit:refused:insufficient-funds",
+	"deposit:refused:slippage", "deposit:refused:insufficient-liquidity", "deposit:refused:insufficient-funds", "deposit:refused:zero-shares",
 	"withdraw:refused:slippage", "withdraw:refused:insufficient-liquidity",
 	"swapin:refused:slippage", "swapin:refused:insufficient-liquidity", "swapin:refused:insufficient-funds",
 	"swapout:refused:slippage", "swapout:refused:insufficient-liquidity", "swapout:refused:insufficient-funds",
